@@ -35,3 +35,34 @@ def run_shared(ctx, entry, coq_needed, rule, assumptions, trusted):
         ctx.log("%s: %s" % (fam, per_family[fam]))
     ctx.trusted += trusted
     return ctx.finish(rule=rule, assumptions=assumptions, extra={"per_family": per_family})
+
+
+# ---------------------------------------------------------------------------------------- C16
+def note_c16(ctx, fam, c16, replay):
+    """Called by the family c11 loops for every emitted item: the stage.Result of the shared
+    pipeline (own queries + all macros evaluated by the real kfl.Apply)."""
+    stash = getattr(ctx, "c16_stash", None)
+    if stash is not None and c16:
+        stash.append((fam, c16, replay))
+
+
+def unsafe_query(q):
+    """Interpolated values that KFL string literals cannot carry (no escape processing: D43)."""
+    return q.count('"') % 2 == 1 or "\\" in q or any(ord(ch) < 32 or ord(ch) == 127 for ch in q) or '""' in q.replace('== ""', "")
+
+
+def collect_c16(ctx, fn):
+    """Run a family's C11 share only to harvest its items (its own verdicts are not C16's)."""
+    ctx.c16_stash = getattr(ctx, "c16_stash", [])
+    saved = (ctx.violation, ctx.is_known, ctx.count_case, ctx.sample, ctx.known_finding)
+    ctx.violation = lambda *a, **k: None
+    ctx.is_known = lambda *a, **k: True
+    ctx.count_case = lambda *a, **k: None
+    ctx.sample = lambda *a, **k: None
+    ctx.known_finding = lambda *a, **k: None
+    nbroken = len(ctx.broken)
+    try:
+        fn(ctx)
+    finally:
+        ctx.violation, ctx.is_known, ctx.count_case, ctx.sample, ctx.known_finding = saved
+        del ctx.broken[nbroken:]
